@@ -410,6 +410,9 @@ impl Entry for TreeEntry {
 #[derive(Debug)]
 pub struct WalkTree {
     is_dir: bool,
+    // A maximum depth that lies above the pivot excludes the root of the traversal and so every
+    // file. `walkdir` cannot express this, so the walk is instead marked as empty.
+    is_empty: bool,
     input: walkdir::IntoIter,
 }
 
@@ -429,17 +432,24 @@ impl WalkTree {
             LinkBehavior::ReadFile => false,
             LinkBehavior::ReadTarget => true,
         });
-        let builder = match depth {
-            DepthBehavior::Max(max) => builder.max_depth(max.max_at_pivot(pivot)),
-            DepthBehavior::Min(min) => builder.min_depth(min.min_at_pivot(pivot)),
+        let (min, max) = match depth {
+            DepthBehavior::Max(max) => (0, Some(max.max_at_pivot(pivot))),
+            DepthBehavior::Min(min) => (min.min_at_pivot(pivot), None),
             DepthBehavior::MinMax(minmax) => {
                 let (min, max) = minmax.min_max_at_pivot(pivot);
-                builder.min_depth(min).max_depth(max)
+                (min, Some(max))
             },
-            DepthBehavior::Unbounded => builder,
+            DepthBehavior::Unbounded => (0, None),
+        };
+        let builder = builder.min_depth(min);
+        let (is_empty, builder) = match max {
+            Some(Some(max)) => (false, builder.max_depth(max)),
+            Some(None) => (true, builder),
+            None => (false, builder),
         };
         WalkTree {
             is_dir: false,
+            is_empty,
             input: builder.into_iter(),
         }
     }
@@ -460,6 +470,9 @@ impl Iterator for WalkTree {
     type Item = Result<TreeEntry, WalkError>;
 
     fn next(&mut self) -> Option<Self::Item> {
+        if self.is_empty {
+            return None;
+        }
         let (is_dir, next) = match self.input.next() {
             Some(result) => match result {
                 Ok(entry) => (entry.file_type().is_dir(), Some(Ok(TreeEntry { entry }))),
